@@ -2109,7 +2109,11 @@ def state_derivation_histories(ctx: Ctx, n_hist: int):
         objs: list = []   # circuits and states
         exp: list = []    # expected {"n", "gates"[, "vector"]}
         tag: list = []    # kind tags
-        fresh_mut: set = set()  # circuits made by a plain constructor: the only ones that are mutated later
+        # circuits that are mutated later: made by a plain constructor, compile_parametric_circuit of a plain parametric circuit
+        # (a mutable ParametricQuantumCircuit subclass whose freeze() must give an independent immutable circuit), mutable copies of
+        # the parametric families.  NOT the non-parametric compile_circuit results (narrow known finding KEY_COMPILED) and not the
+        # non-parametric results of get_mutable_copy / + (known finding get_mutable_copy-keeps-is_immutable-flag)
+        fresh_mut: set = set()
 
         def put(o, want, kind, name):
             objs.append(o); exp.append(want); tag.append(kind)
@@ -2123,7 +2127,8 @@ def state_derivation_histories(ctx: Ctx, n_hist: int):
                 if got != exp[i]:
                     key = "state-derivation-changes-source" if i < len(objs) - 1 or not after.startswith("v") else "state-derivation-result"
                     ctx.witness(key, f"after `{after}` the {tag[i]} v{i} does not read as its own history says "
-                                     "(a call documented to return a new object changed one of its arguments, or built the wrong result)",
+                                     "(a call documented to return a new object changed one of its arguments or built the wrong result, or a later "
+                                     "mutation of the circuit it was derived from leaked into it)",
                                 {"calls": log[:]}, {"object": f"v{i}", "kind": tag[i], "got": str(got)[:400], "want": str(exp[i])[:400]})
                     return False
             return True
@@ -2157,11 +2162,14 @@ def state_derivation_histories(ctx: Ctx, n_hist: int):
                 return put(real(lambda: compile_circuit(c)), {"n": n, "gates": list(ds)}, "compiled circuit", "")
             if fam in ("cp", "cl"):
                 log.append(f"compile_parametric_circuit(v{b})")
-                return put(real(lambda: compile_parametric_circuit(c)), {"n": n, "gates": list(ds)}, "compiled parametric circuit", "")
+                h_ = put(real(lambda: compile_parametric_circuit(c)), {"n": n, "gates": list(ds)}, f"compiled parametric circuit ({base_f})", "")
+                if hasattr(objs[h_], "add_gate"):
+                    fresh_mut.add(h_)
+                return h_
             return b
 
         def is_par(i):
-            return any(d[2] == "unbound" for d in exp[i]["gates"]) or tag[i] in ("pqc", "ipqc", "lqc", "ilqc", "compiled parametric circuit", "ps", "psv")
+            return any(d[2] == "unbound" for d in exp[i]["gates"]) or tag[i] in ("pqc", "ipqc", "lqc", "ilqc") or tag[i].startswith("compiled parametric")
 
         def circuits():
             return [i for i, t_ in enumerate(tag) if not t_.startswith("state:")]
@@ -2220,13 +2228,54 @@ def state_derivation_histories(ctx: Ctx, n_hist: int):
                     # mutate a circuit that came from a plain constructor: nothing derived from it may follow.
                     # (a compiled circuit is itself such a mutable object - known finding, replayed separately)
                     cand = [i for i in cs if i in fresh_mut]
+                    comp = [i for i in cand if tag[i].startswith("compiled")]
                     if not cand:
                         continue
-                    i = rng.choice(cand)
+                    i = rng.choice(comp) if comp and rng.random() < 0.6 else rng.choice(cand)
                     q = rng.randrange(n)
-                    log.append(f"v{i}.add_S_gate({q})")
-                    real(lambda: objs[i].add_S_gate(q))
-                    exp[i]["gates"].append(["S", [q], []])
+                    how = rng.choice(["add_S_gate", "add_gate", "extend", "+=", "parametric"])
+                    if how == "parametric" and hasattr(objs[i], "add_parameter"):
+                        how = "add_S_gate"  # (a linear-mapped gate needs one of the circuit's own parameters: model-judged histories)
+                    if how == "add_S_gate":
+                        log.append(f"v{i}.add_S_gate({q})")
+                        real(lambda: objs[i].add_S_gate(q))
+                        exp[i]["gates"].append(["S", [q], []])
+                    elif how == "add_gate":
+                        log.append(f"v{i}.add_gate(H({q}), 0)")
+                        real(lambda: objs[i].add_gate(qc.H(q), 0))
+                        exp[i]["gates"].insert(0, ["H", [q], []])
+                    elif how == "parametric" and is_par(i):
+                        log.append(f"v{i}.add_ParametricRY_gate({q})")
+                        real(lambda: objs[i].add_ParametricRY_gate(q))
+                        exp[i]["gates"].append(["RY", [q], "unbound"])
+                    else:
+                        gs, ds = lit(n)
+                        if how == "+=":
+                            log.append(f"v{i} += {ds}")
+                            objs[i] = real(lambda: operator.iadd(objs[i], gs))
+                        else:
+                            log.append(f"v{i}.extend({ds})")
+                            real(lambda: objs[i].extend(tuple(gs)))
+                        exp[i]["gates"] += ds
+                elif r < 0.5:
+                    # a circuit from a circuit: freeze() / get_mutable_copy() / + (the source is mutated later, see above)
+                    i = rng.choice(cs)
+                    how = rng.choice(["freeze", "freeze", "get_mutable_copy", "+"])
+                    par_fam = is_par(i)
+                    if how == "freeze":
+                        log.append(f"v{i}.freeze()")
+                        put(real(lambda: objs[i].freeze()), {"n": n, "gates": list(exp[i]["gates"])}, "frozen " + tag[i], "")
+                    elif how == "get_mutable_copy":
+                        log.append(f"v{i}.get_mutable_copy()")
+                        h_ = put(real(lambda: objs[i].get_mutable_copy()), {"n": n, "gates": list(exp[i]["gates"])}, "mutable copy of " + tag[i], "")
+                        if par_fam:
+                            fresh_mut.add(h_)
+                    else:
+                        gs, ds = lit(n)
+                        log.append(f"v{i} + {ds}")
+                        h_ = put(real(lambda: objs[i] + gs), {"n": n, "gates": list(exp[i]["gates"]) + ds}, "sum with " + tag[i], "")
+                        if par_fam:
+                            fresh_mut.add(h_)
                 else:
                     j = rng.choice(ss)
                     s_, par = objs[j], is_par(j)
